@@ -200,7 +200,7 @@ PROPS = {
             "theorems": ["RModel.Impl.safe_unflagged_not_foreign", "RModel.Impl.safe_addZeroCopy", "RModel.Impl.gate_not_foreign",
                          "RModel.Impl.detach_no_foreign'", "RModel.Impl.safe_reachable", "RModel.Impl.hdrLocal_run"],
             "owns": None},
-    "C09": {"suites": [("hist", 1.0), ("alg", 0.7), ("xform", 0.7), ("ser", 0.5), ("kernwf", 1.0), ("kernthresh", 1.0), ("thresh", 0.5), ("agg", 0.5), ("kernl2", 0.5), ("l2rep", 0.3), ("kernmut", 0.3), ("l2mut", 0.3), ("l2xform", 0.3), ("frozen", 0.3)],
+    "C09": {"suites": [("hist", 1.0), ("alg", 0.7), ("xform", 0.7), ("ser", 0.5), ("kernwf", 1.0), ("kernthresh", 1.0), ("thresh", 0.5), ("agg", 0.5), ("kernl2", 0.5), ("l2rep", 0.3), ("kernmut", 0.3), ("l2mut", 0.3), ("l2xform", 0.3), ("frozen", 0.3), ("sizeb", 0.5)],
             "theorems": ["RModel.Impl.wf_implies_validate", "RModel.Impl.validate_implies_wf_of_decoded", "RModel.BSet.canon_ext"] + F_THRESH + L2_CONT[4:8] + L2_REP[5:] + L2_MUT_WF + L2_REPMUT_WF + [L2_XFORM[1], L2_XFORM[3], L2_XFORM[7]] + PINS + FASTEQ,
             "modules": DEFAULT_MODULES + [FACTS, PINS_MOD, FASTEQ_MOD, "RProofs.Properties.C09", "RProofs.ContOps", "RProofs.RepOps", "RProofs.ContMut", "RProofs.RepMut", "RProofs.RepXform"],
             # a library-written stream read back must validate: `rd` lines whose Go side reports an invalid bitmap are C09's
